@@ -638,10 +638,12 @@ class BzrUploader:
                     if not self.quiet:
                         self.outf.write(f"Ignoring {change.path[1]}\n")
                     continue
+                # Renames are finished by now: if a parent directory was renamed
+                # the old object lives at the new path.
                 if change.kind[0] in ("file", "symlink"):
-                    self.delete_remote_file(change.path[0])
+                    self.delete_remote_file(change.path[1])
                 elif change.kind[0] == "directory":
-                    self.delete_remote_dir(change.path[0])
+                    self.delete_remote_dir(change.path[1])
                 else:
                     raise NotImplementedError
 
